@@ -31,7 +31,9 @@ pub fn gen_doc(t: &mut Tape, gates: &Gates) -> Doc {
     let mut lt = p.t.rest();
     let lexemes = p.finish();
     let mut opts = SpellOpts::wild();
-    opts.non_ascii = gates.want("SEMANTIC_TOKENS_NON_ASCII_DOCUMENT") && lt.ratio(1, 4);
+    // non-ASCII documents are generated also while KF-C15-02 is known (then judged in bytes)
+    let _ = gates.want("SEMANTIC_TOKENS_NON_ASCII_DOCUMENT");
+    opts.non_ascii = lt.ratio(1, 4);
     let (lay, _) = layout(&lexemes, &opts, &mut lt);
     gates.take_hits();
     // advance the caller's tape a little so that successive documents differ
@@ -41,8 +43,23 @@ pub fn gen_doc(t: &mut Tape, gates: &Gates) -> Doc {
     Doc { text: lay.text.clone(), lay, lexemes }
 }
 
-/// UTF-16 (line, character) -> byte offset
-fn offset_of(text: &str, line: usize, ch: usize) -> Option<usize> {
+/// the unit in which a response counts characters and lengths
+#[derive(Clone, Copy, PartialEq, Debug)]
+pub enum Unit {
+    /// what the protocol prescribes
+    Utf16,
+    /// known finding KF-C15-02: the pinned tree counts bytes
+    Bytes,
+}
+fn width(c: char, unit: Unit) -> usize {
+    match unit {
+        Unit::Utf16 => c.len_utf16(),
+        Unit::Bytes => c.len_utf8(),
+    }
+}
+
+/// (line, character in `unit`) -> byte offset
+fn offset_of(text: &str, line: usize, ch: usize, unit: Unit) -> Option<usize> {
     let mut cur_line = 0;
     let mut off = 0;
     for l in text.split_inclusive('\n') {
@@ -52,7 +69,7 @@ fn offset_of(text: &str, line: usize, ch: usize) -> Option<usize> {
                 if u == ch {
                     return Some(off + bi);
                 }
-                u += c.len_utf16();
+                u += width(c, unit);
             }
             if u == ch {
                 return Some(off + l.len());
@@ -70,7 +87,21 @@ fn offset_of(text: &str, line: usize, ch: usize) -> Option<usize> {
 }
 
 /// Judges a semantic-tokens result against the lexeme table of `doc`.
-pub fn judge(doc: &Doc, legend: &[String], result: &Value) -> Result<usize, (String, String)> {
+/// One unit for the whole response: UTF-16, or - only while KF-C15-02 is listed as known - bytes.
+pub fn judge(doc: &Doc, legend: &[String], result: &Value, bytes_known: bool) -> Result<usize, (String, String)> {
+    match judge_unit(doc, legend, result, Unit::Utf16) {
+        Ok(k) => Ok(k),
+        Err(e) => {
+            if bytes_known && !doc.text.is_ascii() {
+                judge_unit(doc, legend, result, Unit::Bytes).map_err(|(k, d)| (k, format!("{} (judged in bytes, the unit of known finding KF-C15-02; in UTF-16: {})", d, e.1)))
+            } else {
+                Err(e)
+            }
+        }
+    }
+}
+
+pub fn judge_unit(doc: &Doc, legend: &[String], result: &Value, unit: Unit) -> Result<usize, (String, String)> {
     let data: Vec<u64> = match result.get("data").and_then(|d| d.as_array()) {
         Some(a) => a.iter().map(|x| x.as_u64().unwrap_or(u64::MAX)).collect(),
         None => return Err(("no-data".into(), format!("result is {} for a document without lexical errors", result))),
@@ -98,21 +129,21 @@ pub fn judge(doc: &Doc, legend: &[String], result: &Value) -> Result<usize, (Str
         if k > 0 && dl == 0 && ds == 0 {
             return Err(("not-increasing".into(), format!("token #{} has deltaLine 0 and deltaStart 0", k)));
         }
-        let off = match offset_of(&doc.text, line, start) {
+        let off = match offset_of(&doc.text, line, start, unit) {
             Some(o) => o,
             None => return Err(("outside-document".into(), format!("token #{} decodes to line {} character {} which is outside the document", k, line, start))),
         };
         if off < prev_end_off {
             return Err(("overlap".into(), format!("token #{} at line {} character {} starts before the end of the previous token", k, line, start)));
         }
-        // length in UTF-16 units of the document from `off`
+        // length in `unit`s of the document from `off`
         let mut u = 0usize;
         let mut end = off;
         for c in doc.text[off..].chars() {
             if u >= len {
                 break;
             }
-            u += c.len_utf16();
+            u += width(c, unit);
             end += c.len_utf8();
         }
         if u != len {
@@ -239,7 +270,7 @@ fn check_tape(tape: &[u8], gates: &Gates, stats: &mut Stats, counting: bool) -> 
         }
         return Ok(());
     }
-    match judge(doc, &legend, &resp["result"]) {
+    match judge(doc, &legend, &resp["result"], gates.is_off("SEMANTIC_TOKENS_NON_ASCII_DOCUMENT")) {
         Ok(k) => {
             if counting {
                 stats.class_n("tokens-decoded", k as u64);
@@ -257,17 +288,13 @@ pub fn run(ctx: &Ctx) -> i32 {
         ctx.tier,
         ctx.seed,
         "exploration",
-        "documents printed by the harness from the C01 generator in wild spelling (comments before tokens on the same line, multi-line comments, CRLF, mixed case; a separately counted non-ASCII class), opened and replaced through a history of 1..3 full-text versions (optionally with another document open), then semanticTokens/full. The response is decoded under the LSP relative encoding (legend read from the initialize response): strictly increasing, non-overlapping, every range equals exactly one lexeme of the harness' lexeme table for the CURRENT text in UTF-16 units, legend entry compatible with the lexeme class, every identifier / comment / address lexeme reported; a document with an unlexable character yields result null. Non-trivial: >= 3 lines with tokens and a comment followed by a token on the same line; distinct by document text.",
+        "documents printed by the harness from the C01 generator in wild spelling (comments before tokens on the same line, multi-line comments, CRLF, mixed case; a separately counted non-ASCII class), opened and replaced through a history of 1..3 full-text versions (optionally with another document open), then semanticTokens/full. The response is decoded under the LSP relative encoding (legend read from the initialize response): strictly increasing, non-overlapping, every range equals exactly one lexeme of the harness' lexeme table for the CURRENT text in UTF-16 units (while KF-C15-02 is known, a non-ASCII document may instead be consistent in bytes - one unit for the whole response), legend entry compatible with the lexeme class, every identifier / comment / address lexeme reported; a document with an unlexable character yields result null. Non-trivial: >= 3 lines with tokens and a comment followed by a token on the same line; distinct by document text.",
     );
     let gates = ctx.gates_for("C15");
     let off = gates.off_list();
     let cases = ctx.tier.pick(20_000, 300_000);
     let out = run_tapes("C15", ctx.seed, ctx.threads, cases, 900, |tape, stats, counting| {
-        let mut g = Gates::with_off(off.clone());
-        if g.is_off("SEMANTIC_TOKENS_NON_ASCII_DOCUMENT") {
-            // the known finding covers every non-ASCII character, also inside string literals
-            g.set_off("STRING_NON_ASCII");
-        }
+        let g = Gates::with_off(off.clone());
         check_tape(tape, &g, stats, counting)
     });
     rep.add(out);
